@@ -193,7 +193,40 @@ func (m mv) Marshal(b *cryptobyte.Builder) error {
 	return nil
 }
 
-func run(b, parent *cryptobyte.Builder, items []*node) {
+// tracker hands every AddBytes / AddValue argument to the Builder as a private copy with sentinel-filled spare
+// capacity: the Builder must neither modify nor retain it.
+type tracker struct {
+	full [][]byte // whole backing arrays (data + sentinel)
+	snap [][]byte
+}
+
+func (t *tracker) arg(bs []byte) []byte {
+	full := make([]byte, len(bs)+8)
+	copy(full, bs)
+	for i := len(bs); i < len(full); i++ {
+		full[i] = 0xa5
+	}
+	t.full = append(t.full, full)
+	t.snap = append(t.snap, append([]byte(nil), full...))
+	return full[:len(bs):len(full)]
+}
+func (t *tracker) modified() bool {
+	for i := range t.full {
+		if !bytes.Equal(t.full[i], t.snap[i]) {
+			return true
+		}
+	}
+	return false
+}
+func (t *tracker) scribble() {
+	for _, f := range t.full {
+		for i := range f {
+			f[i] = 0x5c
+		}
+	}
+}
+
+func run(tr *tracker, b, parent *cryptobyte.Builder, items []*node) {
 	for _, nd := range items {
 		nd := nd
 		switch nd.kind {
@@ -215,9 +248,9 @@ func run(b, parent *cryptobyte.Builder, items []*node) {
 				panic("c22: bad width")
 			}
 		case 'b':
-			b.AddBytes(nd.bs)
+			b.AddBytes(tr.arg(nd.bs))
 		case 'L':
-			f := func(c *cryptobyte.Builder) { run(c, b, nd.body) }
+			f := func(c *cryptobyte.Builder) { run(tr, c, b, nd.body) }
 			switch nd.k {
 			case 1:
 				b.AddUint8LengthPrefixed(f)
@@ -231,11 +264,11 @@ func run(b, parent *cryptobyte.Builder, items []*node) {
 				panic("c22: bad k")
 			}
 		case 'A':
-			b.AddASN1(asn1.Tag(nd.tag), func(c *cryptobyte.Builder) { run(c, b, nd.body) })
+			b.AddASN1(asn1.Tag(nd.tag), func(c *cryptobyte.Builder) { run(tr, c, b, nd.body) })
 		case 'U':
 			b.Unwrite(int(nd.n))
 		case 'V':
-			b.AddValue(mv{nd.bs, nd.ok})
+			b.AddValue(mv{tr.arg(nd.bs), nd.ok})
 		case 'E':
 			b.SetError(errors.New("set"))
 		case 'T':
@@ -306,23 +339,23 @@ func readBack(s *cryptobyte.String, items []*node) bool {
 	for _, nd := range items {
 		switch nd.kind {
 		case 'u':
-			var got uint64
+			got := uint64(0xfefdfcfbfaf9f8f7)
 			var ok bool
 			switch nd.w {
 			case 1:
-				var x uint8
+				x := ^uint8(0) - 1
 				ok = s.ReadUint8(&x)
 				got = uint64(x)
 			case 2:
-				var x uint16
+				x := ^uint16(0) - 1
 				ok = s.ReadUint16(&x)
 				got = uint64(x)
 			case 3:
-				var x uint32
+				x := ^uint32(0) - 1
 				ok = s.ReadUint24(&x)
 				got = uint64(x)
 			case 4:
-				var x uint32
+				x := ^uint32(0) - 1
 				ok = s.ReadUint32(&x)
 				got = uint64(x)
 			case 6:
@@ -338,12 +371,12 @@ func readBack(s *cryptobyte.String, items []*node) bool {
 				return false
 			}
 		case 'b', 'V':
-			var out []byte
+			out := []byte{0xde, 0xad}
 			if !s.ReadBytes(&out, len(nd.bs)) || !bytes.Equal(out, nd.bs) {
 				return false
 			}
 		case 'L':
-			var c cryptobyte.String
+			c := cryptobyte.String{0xde, 0xad}
 			var ok bool
 			switch nd.k {
 			case 1:
@@ -353,14 +386,14 @@ func readBack(s *cryptobyte.String, items []*node) bool {
 			case 3:
 				ok = s.ReadUint24LengthPrefixed(&c)
 			case 4: // no ReadUint32LengthPrefixed in string.go
-				var n uint32
+				n := uint32(0xfefdfcfb)
 				ok = s.ReadUint32(&n) && s.ReadBytes((*[]byte)(&c), int(n))
 			}
 			if !ok || !readBack(&c, nd.body) || !c.Empty() {
 				return false
 			}
 		case 'A':
-			var c cryptobyte.String
+			c := cryptobyte.String{0xde, 0xad}
 			if !s.ReadASN1(&c, asn1.Tag(nd.tag)) || !readBack(&c, nd.body) || !c.Empty() {
 				return false
 			}
@@ -415,10 +448,17 @@ func exec(line string) (res string) {
 			}
 		}
 	}()
-	run(b, nil, prog)
+	tr := &tracker{}
+	run(tr, b, nil, prog)
 	out, err := b.Bytes()
 	if err != nil {
 		return "err"
+	}
+	mut := tr.modified()
+	before := append([]byte(nil), out...)
+	tr.scribble() // overwriting the arguments afterwards must not change what Bytes() returned
+	if !bytes.Equal(before, out) {
+		mut = true
 	}
 	rt := "na"
 	var stk []*node
@@ -440,7 +480,7 @@ func exec(line string) (res string) {
 			fx = "0"
 		}
 	}
-	return fmt.Sprintf("ok %s rt=%s fx=%s", showOut(out), rt, fx)
+	return fmt.Sprintf("ok %s rt=%s fx=%s mut=%s", showOut(out), rt, fx, map[bool]string{false: "0", true: "1"}[mut])
 }
 
 // ---------------------------------------------------------------- generator
